@@ -211,6 +211,40 @@ def run(ctx, model_available=True):
     outcome, _, _ = files.load(None, path=dpath)
     if outcome != "ERR":
         failures.append({"kind": "oracle", "sig": "C14:escape" if outcome.startswith("ESCAPE") else "C14:directory", "desc": f"a directory as persistence file gives {outcome}", "case": {}})
+    # the load that matters in practice is the one Gateway.__aenter__ performs: entering the gateway
+    # context on such a file must fail the same way (the read error, nothing else — also when the
+    # path cannot be written either), and again on the next attempt: the file holds what it held
+    from common import Config, Gateway, ScriptedTransport
+
+    async def _enter(pth):
+        gw = Gateway(ScriptedTransport(), Config(persistence_file=pth))
+        try:
+            async with gw:
+                return "OK"
+        except _ex.PersistenceReadError:
+            return "ERR"
+        except BaseException as e:  # noqa: BLE001
+            return "ESCAPE " + type(e).__name__
+
+    entry_cases = [("truncated JSON", b'{"5": {"node_id": 5, "node_ty'), ("wrong shape", b'{"1": 5}'), ("not UTF-8", b'\xff\xfe{}'),
+                   ("a directory", None), ("valid file", json.dumps(VALID[0]).encode()), ("empty file", b"")]
+    dist["gateway_entries"] = 0
+    for label, content in entry_cases:
+        epath = files.path()
+        if content is None:
+            os.mkdir(epath)
+        else:
+            with open(epath, "wb") as f:
+                f.write(content)
+        want = "OK" if label in ("valid file", "empty file") else "ERR"
+        for attempt in (1, 2):
+            got = files.loop.run_until_complete(_enter(epath))
+            dist["gateway_entries"] += 1
+            if got != want:
+                failures.append({"kind": "oracle", "sig": "C14:escape" if got.startswith("ESCAPE") else "C14:gateway-entry",
+                                 "desc": f"entering the gateway context on {label} as persistence file, attempt {attempt}: {got} (expected {want})",
+                                 "case": {"entry": label}})
+                break
     if model_available:
         outs = d.run()
         for (content, outcome), mout in zip(exp, outs):
